@@ -36,7 +36,7 @@ def variants_of(prog, adt_suffix):
 
 
 def callee_name(t):
-    return strip_generics(t.callee_res() or t.callee() or '?')
+    return strip_generics(t.callee_best() or '?')
 
 
 def effects(ctx, bf, roots):
@@ -69,3 +69,120 @@ def edge_target_blocks(edges):
 def is_const_bool_arg(t, idx, val):
     a = t.args[idx]
     return a.const is not None and a.const.get('v') == (1 if val else 0)
+
+
+def linear(t):
+    """normalise an integer term to (coefficients {atom: k}, constant); casts that widen are transparent"""
+    if not isinstance(t, tuple):
+        return {t: 1}, 0
+    h = t[0]
+    if h == 'const':
+        return {}, t[1]
+    if h in ('Add', 'Sub', 'AddWithOverflow', 'SubWithOverflow', 'AddUnchecked', 'SubUnchecked'):
+        a, ca = linear(t[1])
+        b, cb = linear(t[2])
+        sign = 1 if h.startswith('Add') else -1
+        r = dict(a)
+        for k, v in b.items():
+            r[k] = r.get(k, 0) + sign * v
+            if r[k] == 0:
+                del r[k]
+        return r, ca + sign * cb
+    if h in ('Mul', 'MulWithOverflow') and (t[1][0] == 'const' or t[2][0] == 'const'):
+        k = t[1][1] if t[1][0] == 'const' else t[2][1]
+        a, ca = linear(t[2] if t[1][0] == 'const' else t[1])
+        return {x: v * k for x, v in a.items()}, ca * k
+    if h == 'cast':
+        return linear(t[2])
+    return {t: 1}, 0
+
+
+def find_in_term(t, pred):
+    """first subterm satisfying pred (pre-order)"""
+    if pred(t):
+        return t
+    if isinstance(t, tuple):
+        for x in t:
+            r = find_in_term(x, pred)
+            if r is not None:
+                return r
+    return None
+
+
+def await_by_poll(bf):
+    return {a.poll_bb: a for a in bf.awaits() if a.poll_bb is not None}
+
+
+def short_fn(path):
+    if not path:
+        return '?'
+    p = strip_generics(path)
+    parts = [x for x in p.split('::') if not x.startswith('{')]
+    return '::'.join(parts[-2:])
+
+
+def source_of(bf, op):
+    """describe where an error value comes from: the awaited or called function whose result it is"""
+    t = term_of_operand(bf, op)
+    polls = await_by_poll(bf)
+    c = find_in_term(t, lambda x: isinstance(x, tuple) and len(x) == 4 and x[0] == 'call' and not any(
+        x[1].endswith(s) for s in ('Try::branch', 'Result::map_err', 'FromResidual::from_residual', 'Into::into', 'From::from')))
+    if c is None:
+        return 'unknown'
+    if c[1].endswith('Future::poll'):
+        a = polls.get(c[3])
+        if a is not None and a.callee:
+            return short_fn(a.callee)
+        return 'await'
+    return short_fn(c[1])
+
+
+def err_exits(bf):
+    """`?` exits and explicit `Err(..)` returns of a body: list of dict(bb, source, kind)"""
+    res = []
+    body = bf.body
+    for bb, t in bf.calls():
+        c = strip_generics(t.callee() or '')
+        if c.endswith('FromResidual::from_residual') and t.dest.is_local() and t.dest.local == 0:
+            res.append({'bb': bb, 'source': source_of(bf, t.args[0]), 'kind': '?'})
+    for b in body.blocks:
+        if b.cleanup or b.idx not in bf.cfg.reach:
+            continue
+        for si, s in enumerate(b.stmts):
+            if s.k == 'assign' and s.lhs.is_local() and s.lhs.local == 0 and s.rv.k == 'agg' and s.rv.d.get('variant') == 'Err' \
+                    and s.rv.d.get('adt', '').endswith('Result'):
+                res.append({'bb': b.idx, 'source': 'explicit', 'kind': 'Err'})
+    # ordinals per source in block order
+    cnt = {}
+    for r in sorted(res, key=lambda r: r['bb']):
+        cnt[r['source']] = cnt.get(r['source'], 0) + 1
+        r['ord'] = cnt[r['source']]
+    return sorted(res, key=lambda r: r['bb'])
+
+
+def forward_may(bf, starts, init, node_fn=None, edge_fn=None):
+    """forward may-dataflow over sets of abstract values. starts: iterable of blocks.
+    node_fn(bb, value) -> value after the block; edge_fn(u, v, value) -> value along the edge (or None to drop)."""
+    state = {}
+    work = []
+    for s in starts:
+        state[s] = set(init)
+        work.append(s)
+    while work:
+        b = work.pop()
+        outs = set()
+        for v in state[b]:
+            outs.add(node_fn(b, v) if node_fn else v)
+        for s in bf.cfg.succ[b]:
+            vals = set()
+            for v in outs:
+                nv = edge_fn(b, s, v) if edge_fn else v
+                if nv is not None:
+                    vals.add(nv)
+            if not vals:
+                continue
+            old = state.get(s, set())
+            if not vals <= old:
+                state[s] = old | vals
+                work.append(s)
+    return state
